@@ -16,7 +16,9 @@
    This file contains only the property theorems; proofs are in Proofs/HashEnc*.v. *)
 From Coq Require Import ZArith List Bool Sorting.Permutation.
 Require Import JV.Base.C08_MD5 JV.Model.HashEnc JV.Proofs.HashEncDefs JV.Proofs.HashEncOrder
-               JV.Proofs.HashEncKeys JV.Proofs.HashEncExamples JV.Proofs.HashEncInj.
+               JV.Proofs.HashEncKeys JV.Proofs.HashEncExamples JV.Proofs.HashEncInj
+               JV.Model.HashEncX JV.Proofs.HashEncXFacts JV.Proofs.HashEncXNp JV.Proofs.HashEncXTree
+               JV.Gen.C08_Constants JV.Proofs.HashEncGenTie.
 Import ListNotations.
 Open Scope Z_scope.
 
@@ -161,3 +163,107 @@ Proof.
         (conj (proj1 (proj2 (proj2 f13_witness))) (proj1 (proj2 (proj2 (proj2 f13_witness))))))).
 Qed.
 Print Assumptions C08_F13_masquerade_refuted.
+
+(* ================================================================ extension (Model/HashEncX.v)
+   identity / Pickler.memo, save_global, NumpyHasher.  [enc_x_top md5 coerce v] = the list of chunks
+   handed to self._hash.update, in order; the digest is taken over their concatenation [digest_input_x]. *)
+
+(* the hand-copied constants of the models equal the ones regenerated from joblib/hashing.py and the
+   implementation's pickle module on every run (opcode bytes, protocol, _BATCHSIZE, class and attribute
+   names, tags, memoize's exempted types, the dispatch registrations, the default algorithm) *)
+Theorem C08_constants_tie :
+  map (fun o => hd 0 (ser o)) model_ops = g_opcodes /\
+  ser OProto = [g_PROTO; g_protocol] /\
+  hd 0 (nser (NGlobal [])) = g_GLOBAL /\
+  Z.of_nat BATCHSIZE = g_batchsize /\
+  name_module ++ name_set = g_set_global /\ name_module ++ name_fset = g_fset_global /\
+  g_set_global = g_live_set_global /\ g_fset_global = g_live_fset_global /\
+  name_sequence = g_sequence_attr /\ tag_hashed = g_tag_hashed /\ tag_dtype = g_tag_dtype /\
+  g_memoize_skips = [[98; 121; 116; 101; 115]; [115; 116; 114]] /\
+  map snd g_dispatch = [[115; 97; 118; 101; 95; 115; 101; 116]; [115; 97; 118; 101; 95; 102; 114; 111; 122; 101; 110; 115; 101; 116]] /\
+  g_default_hash_name = [109; 100; 53] /\ length g_valid_hash_names = 2%nat /\
+  g_pickler_is_pure_python = true.
+Proof. exact gen_tie. Qed.
+Print Assumptions C08_constants_tie.
+
+(* what identity does to the stream, exactly: an object already in the memo is written as ONE
+   BINGET / LONG_BINGET of its index and nothing of its content is looked at *)
+Theorem C08_memo_hit_tuple : forall md5 c id l m i, lookup_id id (xobjs m) = Some i ->
+  enc_x md5 c (XTuple id l) m = Some ([NO (get_op i)], [], m).
+Proof. exact hit_tuple. Qed.
+Print Assumptions C08_memo_hit_tuple.
+Theorem C08_memo_hit_list : forall md5 c id l m i, lookup_id id (xobjs m) = Some i ->
+  enc_x md5 c (XList id l) m = Some ([NO (get_op i)], [], m).
+Proof. exact hit_list. Qed.
+Print Assumptions C08_memo_hit_list.
+Theorem C08_memo_hit_dict : forall md5 c id l m i, lookup_id id (xobjs m) = Some i ->
+  enc_x md5 c (XDict id l) m = Some ([NO (get_op i)], [], m).
+Proof. exact hit_dict. Qed.
+Print Assumptions C08_memo_hit_dict.
+Theorem C08_memo_hit_global : forall md5 c n m i, lookup_name n (xglobals m) = Some i ->
+  enc_x md5 c (XGlobal n) m = Some ([NO (get_op i)], [], m).
+Proof. exact hit_global. Qed.
+Print Assumptions C08_memo_hit_global.
+
+(* ... and without sharing (pairwise distinct, fresh object ids) the identity-aware model writes exactly the
+   stream of the tree model, so C08_order / C08_inj_sorted apply.  Partial: tuple / list / leaf nodes; dict
+   nodes of the extension are tied to the code by the byte correspondence only. *)
+Theorem C08_x_tree_partial : forall md5 c v, dictfree v -> forall t, erase v = Some t -> NoDup (xids v) ->
+  forall m, fresh (xids v) (xobjs m) ->
+  exists objs', grows (xobjs m) objs' (xids v) /\
+    enc_x md5 c v m = match enc md5 t (xm m) with
+                      | Some (ops, m') => Some (map NO ops, [], mkx m' objs' (xglobals m))
+                      | None => None
+                      end.
+Proof. exact x_tree. Qed.
+Print Assumptions C08_x_tree_partial.
+
+(* F17.  Full statement, FALSE: forall x x', erase x = erase x' -> enc_x_top x = enc_x_top x'.
+   t = (1, 2): [t, t] and [t, (1, 2)] denote the same value and get two streams (tuples are immutable,
+   so this is inside the property's universe; Hasher.memoize exempts only str and bytes). *)
+Theorem C08_F17_shared_tuple_refuted : exists x x', erase x = erase x' /\ erase x <> None /\
+  forall md5 c, enc_x_top md5 c x <> enc_x_top md5 c x' /\ enc_x_top md5 c x <> None /\ enc_x_top md5 c x' <> None.
+Proof. exists f17_shared, f17_distinct. exact f17_witness. Qed.
+Print Assumptions C08_F17_shared_tuple_refuted.
+
+Theorem C08_F17_unshared_is_tree : forall md5 c,
+  enc_x_top md5 c f17_distinct =
+  option_map (fun b => [b]) (enc_top md5 (VList [VTuple [VInt 1; VInt 2]; VTuple [VInt 1; VInt 2]])).
+Proof. exact f17_distinct_is_tree. Qed.
+Print Assumptions C08_F17_unshared_is_tree.
+
+(* NumpyHasher: the chunk sequence of an ndarray determines class (after coerce_mmap), dtype pickle, shape,
+   strides and the buffer handed to the hash.  [name_ok] = b"module\nqualname\n"; [desc_fits] = the ints of
+   shape / strides fit their opcode fields. *)
+Theorem C08_np_chunks_inj : forall md5 c a b chunks,
+  name_ok (eff_klass c a) -> name_ok (eff_klass c b) -> desc_fits md5 a -> desc_fits md5 b ->
+  enc_x_top md5 c (XArr a) = Some chunks -> enc_x_top md5 c (XArr b) = Some chunks ->
+  eff_klass c a = eff_klass c b /\ a_dtype_pickle a = a_dtype_pickle b /\
+  a_shape a = a_shape b /\ a_strides a = a_strides b /\ fed_bytes a = fed_bytes b.
+Proof. exact np_chunks_inj. Qed.
+Print Assumptions C08_np_chunks_inj.
+
+Example C08_np_example : forall md5 c, name_ok (eff_klass c np_ex) /\ desc_fits md5 np_ex /\
+  enc_x_top md5 c (XArr np_ex) <> None /\
+  fed_bytes np_ex = [0;0;0;0; 3;0;0;0; 1;0;0;0; 4;0;0;0; 2;0;0;0; 5;0;0;0].
+Proof. exact np_example. Qed.
+Print Assumptions C08_np_example.
+
+(* coerce_mmap: a memmap is written exactly like the ndarray with the same buffer; ndarrays ignore the flag *)
+Theorem C08_np_coerce_mmap : forall md5 a m, a_is_memmap a = true ->
+  enc_x md5 true (XArr a) m = enc_x md5 true (XArr (as_ndarray a)) m.
+Proof. exact coerce_memmap. Qed.
+Print Assumptions C08_np_coerce_mmap.
+Theorem C08_np_coerce_irrelevant : forall md5 a m, a_is_memmap a = false ->
+  enc_x md5 true (XArr a) m = enc_x md5 false (XArr a) m.
+Proof. exact coerce_irrelevant. Qed.
+Print Assumptions C08_np_coerce_irrelevant.
+
+(* F18.  Full statement, FALSE: the concatenation of the chunks (what the digest is taken over) determines
+   the value.  The raw bytes of an array and "_HASHED_DTYPE" + pickle.dumps(dtype) are fed unframed IN FRONT of
+   the pickle stream: the uint8 array [0x80, 3, ord('C'), 126] and a 126-byte bytes object have one digest input. *)
+Theorem C08_F18_unframed_array_refuted : forall md5 c,
+  digest_input_x md5 c f18_array = enc_top md5 (VBytes f18_payload) /\ digest_input_x md5 c f18_array <> None /\
+  zlen f18_payload = 126.
+Proof. exact f18_witness. Qed.
+Print Assumptions C08_F18_unframed_array_refuted.
